@@ -124,7 +124,8 @@ def run_schedule(cfg, choices):
     if cfg["reader"] == "video":
         vid = _make_video(0, hook)
         base = VideoReader
-        expected = list(range(cfg["start"] if cfg["start"] is not None else 0, cfg["end"] if cfg["end"] is not None else N_SRC))
+        # a requested range reaching beyond the video is a natural read failure at index N_SRC
+        expected = list(range(cfg["start"] if cfg["start"] is not None else 0, min(N_SRC, cfg["end"] if cfg["end"] is not None else N_SRC)))
         exp_items = [(0, i) for i in expected]
         if fault is not None and fault["at"] in expected:
             exp_items = exp_items[: expected.index(fault["at"])]
@@ -271,6 +272,8 @@ def run_schedule(cfg, choices):
 def evaluate(case):
     res = Result()
     cfg = case["cfg"]
+    if cfg["reader"] == "video" and cfg.get("end") is not None and cfg["end"] > N_SRC:
+        res.cls("range-beyond-video")
     res.cls(
         f"reader={cfg['reader']}", f"cap={cfg['cap']}", f"batch={cfg['batch']}",
         "fault=" + (cfg["fault"]["kind"] if cfg.get("fault") else "none"),
@@ -280,7 +283,8 @@ def evaluate(case):
     def judge(choices):
         fails, facts, taken = run_schedule(cfg, choices)
         stats["n"] += 1
-        if (facts["blocked_put"] > 0 and facts["blocked_get"] > 0) or cfg.get("fault"):
+        beyond = cfg["reader"] == "video" and cfg.get("end") is not None and cfg["end"] > N_SRC
+        if (facts["blocked_put"] > 0 and facts["blocked_get"] > 0) or cfg.get("fault") or beyond:
             stats["nontriv"] += 1
         for b, m in fails:
             res.fail(b, f"{m} | cfg={cfg} choices={list(choices)}")
@@ -359,10 +363,10 @@ def strategy():
                 start, end = None, None
             else:
                 start = draw(st.integers(0, N_SRC))
-                end = draw(st.integers(start, N_SRC))
+                end = draw(st.integers(start, N_SRC + 2))  # may reach beyond the video: reading index N_SRC fails
             cfg = {"reader": "video", "start": start, "end": end, "cap": cap, "batch": batch}
             s, e = (0 if start is None else start), (N_SRC if end is None else end)
-            idxs = list(range(s, e))
+            idxs = list(range(s, min(e, N_SRC)))
         else:
             n = draw(st.integers(0, 6))
             frames = sorted(
